@@ -133,6 +133,7 @@ class ValueGen:
                 ld = self._len_decl[length]
                 lo = max(0, ld.offset, minlen)
                 n = rng.randrange(lo, lo + 7)
+                n = self._maybe_boundary_length(ld, n, cheap=True)
                 if self.dialect == "wu" and self.ff_free and self.it.resolve(ld.type).wire == "byte" and n - ld.offset == 255:
                     n -= 1
                 return self.string(n, encoded=enc, sanitized=sanitized, padded=padded)
@@ -175,6 +176,7 @@ class ValueGen:
                 elif isinstance(ins.length, str):
                     ld = self._len_decl[ins.length]
                     n = rng.randrange(max(0, ld.offset), max(0, ld.offset) + 5)
+                    n = self._maybe_boundary_length(ld, n, cheap=t.kind in ("int", "bool", "enum"))
                 else:
                     n = rng.choice([0, 1, 1, 2, 3, 5])
                 if self.dialect == "wu" and ins.optional and n == 0 and not isinstance(ins.length, int):
@@ -192,6 +194,22 @@ class ValueGen:
             elif k == "break":
                 if self.dialect == "wu":
                     st["opt_missing"] = False
+
+    def _maybe_boundary_length(self, ld, n, cheap):
+        """Occasionally use a length at / just below the largest one the length field can carry
+        (max(type) + offset): valid values the declaration allows but small samples never reach."""
+        rng = self.rng
+        wire = self.it.resolve(ld.type).wire
+        top = self.it.max_len_of(ld)
+        p = {"byte": 0.10, "char": 0.10, "short": 0.01 if cheap else 0.0}.get(wire, 0.0)
+        if not cheap:
+            p *= 0.3
+        if top < 0 or rng.random() >= p:
+            return n
+        m = max(0, ld.offset, top - rng.choice([0, 0, 1, 2, 3]) - (2 * max(0, ld.offset) if rng.random() < 0.4 else 0))
+        if self.dialect == "wu" and self.ff_free and wire == "byte" and m - ld.offset == 255:
+            m -= 1
+        return m
 
     def _skip_optional(self, st):
         rng = self.rng
